@@ -417,6 +417,8 @@ class Table(Vector):
 				# Replace the column at validated index
 				if not isinstance(value, Vector):
 					value = Vector(value)
+				else:
+					value = value.copy()  # snapshot, as Table.__init__ does
 				
 				if self._underlying and len(value) != self._length:
 					raise ValueError(
@@ -436,6 +438,8 @@ class Table(Vector):
 				# Replace the column in _underlying
 				if not isinstance(value, Vector):
 					value = Vector(value)
+				else:
+					value = value.copy()  # snapshot, as Table.__init__ does
 				
 				# Validate length
 				if self._underlying and len(value) != self._length:
